@@ -11,10 +11,14 @@ from common import R, Ro, fl
 
 from common import wiring_pre_build as pre_build  # noqa: E402,F401
 
-LEAN_MODULES = ["PyomaVerif.Props.C16", "PyomaVerif.Props.C16Extract", "PyomaVerif.Mutants.C16", "PyomaVerif.Mutants.C16Extract", "PyomaVerif.Props.WiringMpe"]
+LEAN_MODULES = ["PyomaVerif.Props.C16", "PyomaVerif.Props.C16Extract", "PyomaVerif.Mutants.C16", "PyomaVerif.Mutants.C16Extract", "PyomaVerif.Props.WiringMpe", "PyomaVerif.Props.WiringClass", "PyomaVerif.Props.WiringCalls"]
 THEOREMS = [
     # call-site wiring of the class layer, regenerated from /repo on every run (translate_wiring.py)
     "PV.WiringMpe.C16_handover_wiring",
+    "PV.WiringMpe.C16_handover_wiring_efdd",
+    "PV.WiringMpe.C16_from_plot_stores",
+    "PV.WiringClass.C16_from_plot_inherited",
+    "PV.WiringCalls.C16_from_plot_calls",
     "PV.C16.C16_refine",
     "PV.C16.C16_handover",
     "PV.C16.C16_fdd",
